@@ -494,6 +494,35 @@ def jobs(tier, seed):
     return out
 
 
+def value_dependent_numerics():
+    """numeric operations whose running time depends on the VALUE a piece of run-time data denotes rather than on its length
+    (arbitrary-precision decimal / rational parsing followed by conversion, powers and shifts with a run-time exponent):
+    neither of the two cost models covers them, so their presence is reported instead of being passed over"""
+    found = []
+    for f in sorted(glob.glob(os.path.join(REPO, "productmd", "*.py"))):
+        with open(f) as fh:
+            tree = ast.parse(fh.read(), f)
+        names = {}
+        for n in ast.walk(tree):
+            if isinstance(n, ast.ImportFrom) and n.module in ("decimal", "fractions"):
+                for a in n.names:
+                    names[a.asname or a.name] = "%s.%s" % (n.module, a.name)
+        for n in ast.walk(tree):
+            where = "%s:%d" % (os.path.relpath(f, REPO), getattr(n, "lineno", 0))
+            if isinstance(n, ast.Call):
+                fn = n.func
+                q = None
+                if isinstance(fn, ast.Name) and fn.id in names:
+                    q = names[fn.id]
+                elif isinstance(fn, ast.Attribute) and isinstance(fn.value, ast.Name) and fn.value.id in ("decimal", "fractions"):
+                    q = "%s.%s" % (fn.value.id, fn.attr)
+                if q in ("decimal.Decimal", "fractions.Fraction") and n.args and not isinstance(n.args[0], ast.Constant):
+                    found.append("%s: %s(%s)" % (where, q, ast.unparse(n.args[0])[:60]))
+            elif isinstance(n, ast.BinOp) and isinstance(n.op, (ast.Pow, ast.LShift)) and not isinstance(n.right, ast.Constant):
+                found.append("%s: %s" % (where, ast.unparse(n)[:80]))
+    return found
+
+
 def run(tier, seed):
     sys.path.insert(0, HERE)
     from psx import runner, rx
@@ -506,6 +535,9 @@ def run(tier, seed):
     known_hits = {}
     errors = []
     nq = 0
+    vdn = value_dependent_numerics()
+    for x in vdn:
+        errors.append("numeric operation whose cost depends on the value of run-time data, covered by neither cost model: %s" % x)
     for d in DYNAMIC:
         if d["instantiated"] is None:
             errors.append("pattern assembled at run time at %s (%s) is not a recognisable template: not analysed" % (d["where"], d["expression"]))
@@ -563,6 +595,7 @@ def run(tier, seed):
         "patterns": infos,
         "patterns_encoded": sorted(pats),
         "patterns_assembled_at_run_time": list(DYNAMIC),
+        "value_dependent_numeric_operations": vdn,
         "known_findings_reproduced": known_hits,
         "samples": [{"pattern": i["pattern"], "verdict": i["verdict"], "K_checked": i["K_checked"], "queries": i["queries"],
                      "cyclic_core": i["cyclic_core"], "minterms": i["minterms"]} for i in infos[:6]],
@@ -572,6 +605,8 @@ def run(tier, seed):
         "assumptions": [
             "cost model: CPython's backtracking matcher explores at most the runs of the VM program; anchors are treated as passable (over-approximation)",
             "a witness is reported only if the real `re` engine shows measured exponential growth on prefix + pump^n + suffix",
+            "arbitrary-precision decimal/rational parsing of run-time data and powers/shifts with a run-time exponent are outside both cost models: a source scan reports "
+            "their presence as not analysed (exit 2) - the pinned tree contains none",
             "a pattern assembled inside a function from run-time text (%-format, f-string, str.format, +) is analysed with every hole that is not wrapped in re.escape replaced by "
             "the text '(a+)+' (document fields are untrusted input); a pattern expression that is not such a template is reported as not analysed (exit 2)",
             "non-regex parsing code (split/rsplit/count/endswith based) is linear by construction of those builtins and is not analysed here",
